@@ -202,7 +202,9 @@ func resolveRenamedRoles(p *Prog, rolesPath string) []string {
 				continue
 			}
 			s := jaccard(fp.Features, computeFeatures(p, fn, isRole))
-			if flatSig(fn) == fp.Sig {
+			if fn.Name() == name && fn.Signature.Recv() != nil {
+				s += 0.3 // the function became a method of the same name
+			} else if flatSig(fn) == fp.Sig {
 				s += 0.2
 			} else if s < 0.7 {
 				continue // a different signature needs a much closer body
